@@ -22,10 +22,13 @@ Definition outcome_eqb (a b : outcome) : bool :=
   | _, _ => false
   end.
 
-(* codes: 100*step + 1 outcome (class and value), 2 what obj.__dict__ holds for the name afterwards *)
+(* codes: 100*step + 1 outcome (class and value), 2 what obj.__dict__ holds for the name afterwards,
+   4 for name + "_", 5 for name[:-1] *)
 Definition obs_diff (m i : obs) : list Z :=
   chk 1 (outcome_eqb (o_out m) (o_out i))
-  ++ chk 2 (opt_eqb Z.eqb (o_stored m) (o_stored i)).
+  ++ chk 2 (opt_eqb Z.eqb (o_stored m) (o_stored i))
+  ++ chk 4 (opt_eqb Z.eqb (o_shadow m) (o_shadow i))
+  ++ chk 5 (opt_eqb Z.eqb (o_base m) (o_base i)).
 
 Fixpoint corr_hist (pt : ptab) (i : Z) (s : state) (h : list (op * obs)) : list Z :=
   match h with
@@ -61,6 +64,8 @@ Definition policy_eqb (a b : policy) : bool :=
   | PPython, PPython | PDisallow, PDisallow | PEvent None, PEvent None => true
   | PEvent (Some k), PEvent (Some l) => vkind_eqb k l
   | PAny x, PAny y | PConstant x, PConstant y | PReadOnly x, PReadOnly y => Z.eqb x y
+  | PMap m x, PMap l y => list_eqb (fun a b => Z.eqb (fst a) (fst b) && Z.eqb (snd a) (snd b)) m l && Z.eqb x y
+  | PShadow m, PShadow l => list_eqb (fun a b => Z.eqb (fst a) (fst b) && Z.eqb (snd a) (snd b)) m l
   | PTyped k x, PTyped l y => vkind_eqb k l && Z.eqb x y
   | _, _ => false
   end.
@@ -82,7 +87,7 @@ Fixpoint law_tag (mr sr : name -> rule) (i : Z) (ls : lstate) (h : list (op * ob
        | [] => []
        | codes => if rule_eqb (mr (op_name o)) (sr (op_name o))
                   then map (fun c => 100 * i + c) codes else [100 * i + 99]
-       end) ++ law_tag mr sr (i + 1) (law_next ls o ob) r
+       end) ++ law_tag mr sr (i + 1) (law_next mr ls o ob) r
   end.
 
 Fixpoint law_tag2 (mr sr : name -> rule) (i : Z) (la lb : lstate) (h : list (bool * op * obs)) : list Z :=
@@ -94,7 +99,7 @@ Fixpoint law_tag2 (mr sr : name -> rule) (i : Z) (la lb : lstate) (h : list (boo
        | [] => []
        | codes => if rule_eqb (mr (op_name o)) (sr (op_name o))
                   then map (fun c => 100 * i + c) codes else [100 * i + 99]
-       end) ++ law_tag2 mr sr (i + 1) (if w then la else law_next me o ob) (if w then law_next me o ob else lb) r
+       end) ++ law_tag2 mr sr (i + 1) (if w then la else law_next mr me o ob) (if w then law_next mr me o ob else lb) r
   end.
 
 (* the law knows nothing of caches nor of the order in which update_traits_class_dict merges
